@@ -18,8 +18,15 @@ type MerkleCase struct {
 
 func genMerkleCase(t *rapid.T) MerkleCase {
 	n := rapid.IntRange(1, 70).Draw(t, "n")
-	if rapid.IntRange(0, 9).Draw(t, "empty") == 0 {
+	switch rapid.IntRange(0, 19).Draw(t, "empty") {
+	case 0, 1:
 		n = 0
+	case 2, 3:
+		// block-sized lists (MaxTransactionsPerBlock is 512 on the public networks, the format allows 65535): around the
+		// powers of two, where the shape of the tree changes
+		n = rapid.SampledFrom([]int{128, 256, 512, 1024, 2048}).Draw(t, "pow") + rapid.IntRange(-3, 3).Draw(t, "off")
+	case 4:
+		n = rapid.IntRange(71, 5000).Draw(t, "big")
 	}
 	alpha := rapid.SampledFrom([]int{2, 4, 1000}).Draw(t, "alphabet")
 	c := MerkleCase{Idx: []int{}}
@@ -52,7 +59,7 @@ func refMerkle(l [][32]byte) [32]byte {
 
 func checkMerkleCase(c MerkleCase, o *vt.Obs) error {
 	n := len(c.Idx)
-	if n > 4096 {
+	if n > 70000 {
 		return fmt.Errorf("case: too many hashes")
 	}
 	list := make([]util.Uint256, n)
@@ -124,6 +131,13 @@ func checkMerkleCase(c MerkleCase, o *vt.Obs) error {
 			break
 		}
 	}
-	o.Labelf("n=%d..%d", n/10*10, n/10*10+9)
+	if n < 70 {
+		o.Labelf("n=%d..%d", n/10*10, n/10*10+9)
+	} else {
+		o.Label("n>=70")
+		if n >= 255 {
+			o.Label("n>=255")
+		}
+	}
 	return nil
 }
